@@ -54,7 +54,9 @@ def field (w : Want) (optional : Bool) (bs : Bytes) : Res (Option Elem × Bytes)
     | .panic => .panic
 
 /-- `parseField` for `optional,explicit,tag:k`: returns the inner element and the bytes consumed
-    (wrapper header + inner element — the wrapper's own length is only tested for zero). -/
+    (wrapper header + inner element — the wrapper's own length is only tested for zero).  A header that is not
+    the expected wrapper gives the default without consuming, also when nothing follows it (zcrypto 51a5052:
+    "explicit tag has no child" is reported only for a matching wrapper of non-zero length). -/
 def explicitField (k : Nat) (inner : Want) (bs : Bytes) : Res (Option (Elem × Bytes) × Bytes) :=
   if bs.isEmpty then .ok (none, bs)
   else
@@ -62,7 +64,7 @@ def explicitField (k : Nat) (inner : Want) (bs : Bytes) : Res (Option (Elem × B
     | .ok (h, after) =>
       if h.cls == 2 && h.tag == k && (h.len == 0 || h.compound) then
         if h.len == 0 then .err                                    -- zero length explicit tag, not a Flag
-        else if after.isEmpty then .err                            -- "explicit tag has no child" (matching wrapper only)
+        else if after.isEmpty then .err                            -- "explicit tag has no child" (matching, non-empty wrapper only)
         else
           match readHdr after with
           | .ok (h2, _) =>
